@@ -3563,7 +3563,7 @@ impl Transition {
                     if name.len() == e.len() {
                         // Full match
                         return true;
-                    } else if let Some(c) = name.chars().nth(e.len()) {
+                    } else if let Some(c) = name[e.len()..].chars().next() {
                         // partial match, token needs to be terminated with "."
                         if c == '.' {
                             return true;
